@@ -333,6 +333,7 @@ def configure(specs=DEFAULT_SPECS, clock='rec', output='rec', extra_settings=Non
 # --- coverage of the real code (functions "encoded") --------------------------
 _seen_code = set()
 _TOOL = 3
+_REPO = __import__('os').environ.get('VERIF_REPO', '/repo').rstrip('/') + '/' 
 
 
 def start_function_trace():
@@ -344,8 +345,8 @@ def start_function_trace():
 
     def on_start(code, offset):
         fn = code.co_filename
-        if fn.startswith('/repo/'):
-            _seen_code.add('%s:%s' % (fn[6:], code.co_qualname))
+        if fn.startswith(_REPO):
+            _seen_code.add('%s:%s' % (fn[len(_REPO):], code.co_qualname))
         return mon.DISABLE
     mon.register_callback(_TOOL, mon.events.PY_START, on_start)
     mon.set_events(_TOOL, mon.events.PY_START)
